@@ -292,21 +292,21 @@ type mirrorEnt struct {
 }
 
 type lockMon struct {
-	mu       sync.Mutex
-	e        *simEnv
-	p        *LockPlan
-	out      *Outcome
-	total    int
-	validity time.Duration
-	interval time.Duration
-	bound    time.Duration
-	tasks    []*lockTaskState
-	sess     []*lockSess
-	byGoid   map[uint64]*lockTaskState
-	attempts map[string]*lockAttempt
-	mirror   map[string]mirrorEnt
-	logIdx   int
-	forced   map[string]bool // names on which the plan uses ForceWithContext
+	mu          sync.Mutex
+	e           *simEnv
+	p           *LockPlan
+	out         *Outcome
+	total       int
+	validity    time.Duration
+	interval    time.Duration
+	bound       time.Duration
+	tasks       []*lockTaskState
+	sess        []*lockSess
+	byGoid      map[uint64]*lockTaskState
+	attempts    map[string]*lockAttempt
+	mirror      map[string]mirrorEnt
+	logIdx      int
+	forced      map[string]bool // names on which the plan uses ForceWithContext
 	unknownDraw bool
 	harnessErr  string
 	pairFlag    map[string]bool
